@@ -50,6 +50,7 @@ type orchScenario struct {
 type orchJob struct {
 	Scenarios []orchScenario `json:"scenarios"`
 	Workers   int            `json:"workers"`
+	Base      int            `json:"base"`
 }
 
 type orchSignal struct {
@@ -74,8 +75,8 @@ type orchRun struct {
 	sch     *threshold.Scheme
 	mu      sync.Mutex
 	calls   map[int]*orchCall
-	byTopic map[string][2]interface{} // hex topic -> (call id, stage)
-	names   map[string]string         // hex topic -> logical name
+	byTopic map[string][][2]interface{} // logical topic -> (call id, stage) of every call made on it, oldest first
+	names   map[string]string           // hex topic -> logical name
 	signals chan orchSignal
 	current *orchCall
 	onmsg   []obj
@@ -100,7 +101,7 @@ func syncTopic2(members []int) []byte {
 }
 
 func newOrchRun(sc orchScenario) *orchRun {
-	r := &orchRun{sc: sc, calls: map[int]*orchCall{}, byTopic: map[string][2]interface{}{}, names: map[string]string{}, signals: make(chan orchSignal, 64),
+	r := &orchRun{sc: sc, calls: map[int]*orchCall{}, byTopic: map[string][][2]interface{}{}, names: map[string]string{}, signals: make(chan orchSignal, 64),
 		stubs: map[*scripted.StubSync]string{}}
 	membership := map[tss.UniversalID]tss.PartyID{}
 	for k, v := range sc.Membership {
@@ -111,7 +112,9 @@ func newOrchRun(sc orchScenario) *orchRun {
 	r.names[hex.EncodeToString(sha([]byte(tss.DkgTopicName)))] = "DKG"
 	r.names[hex.EncodeToString(syncTopic2(sc.Participants))] = "DKG2"
 	if len(sc.DupParticipants) > 0 {
-		r.names[hex.EncodeToString(syncTopic2(sc.DupParticipants))] = "DKG2d"
+		if k := hex.EncodeToString(syncTopic2(sc.DupParticipants)); r.names[k] == "" {
+			r.names[k] = "DKG2d"
+		}
 	}
 	for _, t := range []string{"T1", "T2", "P1", "P2"} {
 		r.names[hex.EncodeToString(sha([]byte(t)))] = t
@@ -144,7 +147,15 @@ func newOrchRun(sc orchScenario) *orchRun {
 			name := r.name(topic)
 			r.mu.Lock()
 			r.stubs[st] = name
-			ent, ok := r.byTopic[name]
+			// the call that owns the topic: the first one that has not returned (a refused call returns at once)
+			var ent [2]interface{}
+			ok := false
+			for _, e := range r.byTopic[name] {
+				if !r.calls[e[0].(int)].done {
+					ent, ok = e, true
+					break
+				}
+			}
 			r.mu.Unlock()
 			if !ok {
 				return nil, fmt.Errorf("harness: no call owns topic %s", name)
@@ -259,12 +270,12 @@ func orchExec(ti int, sc orchScenario) []obj {
 			r.mu.Lock()
 			r.calls[op.C] = c
 			if op.Kind == "kg" {
-				r.byTopic["DKG"] = [2]interface{}{op.C, "s1"}
-				r.byTopic["DKG2"] = [2]interface{}{op.C, "s2"}
-				r.byTopic["DKG2d"] = [2]interface{}{op.C, "s2"}
+				r.byTopic["DKG"] = append(r.byTopic["DKG"], [2]interface{}{op.C, "s1"})
+				r.byTopic["DKG2"] = append(r.byTopic["DKG2"], [2]interface{}{op.C, "s2"})
+				r.byTopic["DKG2d"] = append(r.byTopic["DKG2d"], [2]interface{}{op.C, "s2"})
 			} else {
-				r.byTopic[op.Topic] = [2]interface{}{op.C, "s1"}
-				r.byTopic[op.Topic+"2"] = [2]interface{}{op.C, "s2"}
+				r.byTopic[op.Topic] = append(r.byTopic[op.Topic], [2]interface{}{op.C, "s1"})
+				r.byTopic[op.Topic+"2"] = append(r.byTopic[op.Topic+"2"], [2]interface{}{op.C, "s2"})
 			}
 			r.mu.Unlock()
 			r.current = c
@@ -359,7 +370,9 @@ func orchExec(ti int, sc orchScenario) []obj {
 			got = "none"
 		}
 		if got == "ret" {
+			r.mu.Lock()
 			r.calls[op.C].done = true
+			r.mu.Unlock()
 		}
 		time.Sleep(2 * time.Millisecond) // let deferred clean-up of the goroutines that just finished run
 		r.mu.Lock()
@@ -430,14 +443,25 @@ func contains(s, sub string) bool {
 	return false
 }
 
+// The code under test may panic in a goroutine of its own (which cannot be recovered from outside): scenarios run in child
+// processes; a crash is attributed to the scenario that was running and the rest of the chunk is re-run in a new child.
 func init() {
+	commands["orch-child"] = func() {
+		var job orchJob
+		readJob(&job)
+		em := newEmitter()
+		for i, sc := range job.Scenarios {
+			em.lines(orchExec(job.Base+i, sc))
+			em.flush()
+		}
+	}
 	commands["orch"] = func() {
 		var job orchJob
 		readJob(&job)
 		em := newEmitter()
 		defer em.flush()
-		parallel(len(job.Scenarios), job.Workers, func(i int) {
-			em.lines(orchExec(i, job.Scenarios[i]))
-		})
+		runInChildren("orch-child", len(job.Scenarios), job.Workers, 25, func(lo, hi int) interface{} {
+			return orchJob{Scenarios: job.Scenarios[lo:hi], Base: lo}
+		}, em)
 	}
 }
